@@ -5,6 +5,7 @@ import Driver.OpcodeOps
 import Driver.BasicBlockOps
 import Driver.BytesMemOps
 import Driver.FormatOps
+import Driver.SparseOps
 /-
 Registry of all operation handlers of the model driver.  One line per component.
 -/
@@ -17,6 +18,7 @@ def allHandlers : List (String × Handler) :=
   opcodeHandlers ++
   basicBlockHandlers ++
   bytesMemHandlers ++
-  formatHandlers
+  formatHandlers ++
+  sparseHandlers
 
 end Driver
